@@ -35,4 +35,38 @@ theorem normalize_of_disjoint (l : List Rect) (h : l.Pairwise fun a b => overlap
   have := normalize_fold [] l (by intro x _ o ho; cases ho) h
   simpa using this
 
+/-! ### `MergeCell` as a step (round 5) -/
+
+theorem inside_overlap (a b : Rect) (c r : Nat) (ha : inside a c r = true) (hb : inside b c r = true) :
+    overlap a b = true := by
+  simp only [inside, overlap, Bool.and_eq_true, decide_eq_true_eq] at *
+  omega
+
+theorem anchorOf_append_miss (l : List Rect) (m : Rect) (c r : Nat) (h : inside m c r = false) :
+    anchorOf (l ++ [m]) c r = anchorOf l c r := by
+  unfold anchorOf
+  rw [List.find?_append]
+  cases hf : l.find? (fun m => inside m c r) <;> simp [List.find?, h]
+
+theorem anchorOf_append_hit (l : List Rect) (m : Rect) (c r : Nat) (h : inside m c r = true)
+    (hn : ∀ o ∈ l, overlap m o = false) : anchorOf (l ++ [m]) c r = (m.c1, m.r1) := by
+  unfold anchorOf
+  rw [List.find?_append]
+  have : l.find? (fun m => inside m c r) = none := by
+    apply List.find?_eq_none.mpr
+    intro o ho hi
+    have := inside_overlap m o c r h hi
+    rw [hn o ho] at this; cases this
+  simp [this, List.find?, h]
+
+theorem mergeCell_pairwise (l : List Rect) (x1 y1 x2 y2 : Nat)
+    (h : l.Pairwise fun a b => overlap b a = false)
+    (hn : ∀ o ∈ l, overlap (sortRect x1 y1 x2 y2) o = false) :
+    (mergeCell l x1 y1 x2 y2).Pairwise fun a b => overlap b a = false := by
+  unfold mergeCell
+  rw [List.pairwise_append]
+  refine ⟨h, by simp, ?_⟩
+  intro a ha b hb
+  simp only [List.mem_singleton] at hb; subst hb; exact hn a ha
+
 end XlModel.SaveMerge
